@@ -725,12 +725,17 @@ func ruleAtomDecorate(rule string) RuleFn {
 // transactions that own them.
 func ruleWOwners(rule string) RuleFn {
 	return func(c *an.Ctx) {
-		c.Rule(rule, "E-WHO: Scope.providers is written only in Scope.provide (and newScope); Scope.decorators only in Scope.Decorate (and newScope); Scope.nodes only in Scope.provide; graphHolder.nodes only in graphHolder.NewNode, graphHolder.Rollback and Scope.Scope (copy for a new child)")
+		c.Rule(rule, "E-WHO: each of the four value stores of Scope (values, decoratedValues, groups, decoratedGroups) is written only by its setter (and newScope); Scope.providers is written only in Scope.provide (and newScope); Scope.decorators only in Scope.Decorate (and newScope); Scope.nodes only in Scope.provide; graphHolder.nodes only in graphHolder.NewNode, graphHolder.Rollback and Scope.Scope (copy for a new child)")
 		owners := map[string]map[string]bool{
 			"Scope.providers":   {"(*dig.Scope).provide": true, "dig.newScope": true},
 			"Scope.decorators":  {"(*dig.Scope).Decorate": true, "dig.newScope": true},
 			"Scope.nodes":       {"(*dig.Scope).provide": true},
 			"graphHolder.nodes": {"(*dig.graphHolder).NewNode": true, "(*dig.graphHolder).Rollback": true, "(*dig.Scope).Scope": true},
+			// the four value stores have exactly one writer function each (their setter)
+			"Scope.values":          {"(*dig.Scope).setValue": true, "dig.newScope": true},
+			"Scope.decoratedValues": {"(*dig.Scope).setDecoratedValue": true, "dig.newScope": true},
+			"Scope.groups":          {"(*dig.Scope).submitGroupedValue": true, "dig.newScope": true},
+			"Scope.decoratedGroups": {"(*dig.Scope).submitDecoratedGroupedValue": true, "dig.newScope": true},
 		}
 		count := map[string]int{}
 		for _, fn := range c.P.Funcs {
@@ -769,6 +774,129 @@ func ruleWOwners(rule string) RuleFn {
 				min = 1
 			}
 			c.Floor(rule, "writes of "+f, count[f], min)
+		}
+	}
+}
+
+// ruleDecorateDup (G-decorate-dup, C12/C06): at most one decorator per key per
+// scope, checked for all keys before any is registered.
+func ruleDecorateDup(rule string) RuleFn {
+	return func(c *an.Ctx) {
+		c.Rule(rule, "G-decorate-dup: in Scope.Decorate every update of Scope.decorators uses a key of findResultKeys(dn.results); a lookup of the same map under a key of the same collection, whose hit edge leads only to error returns, comes first - either on the same iteration (its miss edge dominates the update) or as a complete earlier loop over the collection whose exhausted exit dominates the update; the registered value is the node built from the decorator argument")
+		fn := c.Fn(rule, "(*dig.Scope).Decorate")
+		if fn == nil {
+			return
+		}
+		frk := an.CallsNamed(fn, "dig.findResultKeys")
+		if len(frk) != 1 {
+			c.BadAt(rule, "Decorate computes the keys it decorates", "no single findResultKeys call", c.P.Pos(fn.Pos()), nil)
+			return
+		}
+		keys := an.Norm(frk[0].(*ssa.Call)) + "#0"
+		var lookups []*ssa.Lookup
+		var updates []*ssa.MapUpdate
+		an.Instrs(fn, func(in ssa.Instruction) {
+			switch x := in.(type) {
+			case *ssa.Lookup:
+				if an.Norm(x.X) == "p:s.decorators" && x.CommaOk && strings.HasPrefix(an.Norm(x.Index), keys+"[") {
+					lookups = append(lookups, x)
+				}
+			case *ssa.MapUpdate:
+				if an.Norm(x.Map) == "p:s.decorators" {
+					updates = append(updates, x)
+				}
+			}
+		})
+		if len(updates) == 0 {
+			c.BadAt(rule, "Decorate registers the decorator", "no update of Scope.decorators", c.P.Pos(fn.Pos()), nil)
+			return
+		}
+		gates := an.NewGates()
+		okHit := len(lookups) > 0
+		for _, l := range lookups {
+			ll := l
+			hit := an.BoolEdges(fn, func(v ssa.Value) bool {
+				ex, ok := v.(*ssa.Extract)
+				return ok && ex.Tuple == ssa.Value(ll) && ex.Index == 1
+			}, true)
+			miss := an.BoolEdges(fn, func(v ssa.Value) bool {
+				ex, ok := v.(*ssa.Extract)
+				return ok && ex.Tuple == ssa.Value(ll) && ex.Index == 1
+			}, false)
+			if len(hit) == 0 {
+				okHit = false
+			}
+			for _, e := range hit {
+				if !onlyReachableErr(fn, e) {
+					okHit = false
+				}
+			}
+			// same-iteration form
+			gates.AddEdges(miss...)
+		}
+		// complete-earlier-loop form: a range loop over keys containing a lookup
+		loopForm := an.NewGates()
+		for _, rl := range rangeLoops(fn) {
+			if rl.over != keys {
+				continue
+			}
+			has := false
+			for _, l := range lookups {
+				if rl.body[l.Block()] {
+					has = true
+				}
+			}
+			if !has {
+				continue
+			}
+			clean := true
+			for _, e := range rl.earlyExits() {
+				if !onlyReachableErr(fn, e) {
+					clean = false
+				}
+			}
+			// the lookup happens on every iteration
+			for _, l := range lookups {
+				if rl.body[l.Block()] {
+					body := rl.header.Succs[0]
+					if hit, _ := an.PathTo(fn, body.Instrs[0], func(i ssa.Instruction) bool { return i.Block() == rl.header }, an.NewGates().AddInstr(l)); hit != nil && l.Block() != body {
+						clean = false
+					}
+				}
+			}
+			if clean {
+				loopForm.AddEdges(an.Edge{From: rl.header, Succ: 1})
+			}
+		}
+		c.Check(okHit, rule, "Decorate: an already decorated key is an error", "hit edge leads only to error returns", "a key that already has a decorator in this scope is not rejected: two decorators for one key in one scope", nil, nil)
+		for _, u := range updates {
+			cons := "Decorate: the duplicate check precedes the registration of each key"
+			kn := an.Norm(u.Key)
+			if !strings.HasPrefix(kn, keys+"[") {
+				c.Bad(rule, "Decorate registers exactly the keys of the decorator's results", "the decorators map is updated under "+kn+", not under a key of findResultKeys(dn.results)", u, nil)
+				continue
+			}
+			c.OK(rule, "Decorate registers exactly the keys of the decorator's results", kn, u)
+			// same iteration: index expression equal to a lookup's and dominated by its miss edge
+			same := an.NewGates()
+			for _, l := range lookups {
+				if an.Norm(l.Index) == kn {
+					ll := l
+					same.AddEdges(an.BoolEdges(fn, func(v ssa.Value) bool {
+						ex, ok := v.(*ssa.Extract)
+						return ok && ex.Tuple == ssa.Value(ll) && ex.Index == 1
+					}, false)...)
+				}
+			}
+			h1, _ := an.PathTo(fn, nil, an.IsInstr(u), same)
+			h2, p2 := an.PathTo(fn, nil, an.IsInstr(u), loopForm)
+			if (same.Len() > 0 && h1 == nil) || (loopForm.Len() > 0 && h2 == nil) {
+				c.OK(rule, cons, "lookup first", u)
+			} else {
+				c.Bad(rule, cons, "a decorator can be registered for a key without that key having been checked: a second decorator replaces the first", u, an.BlockPath(c.P, p2))
+			}
+			v := an.Norm(u.Value)
+			c.Check(strings.HasPrefix(v, "dig.newDecoratorNode(p:decorator, p:s,") && strings.HasSuffix(v, "#0"), rule, "Decorate registers the node built from its argument in the receiver scope", v, "the registered value is "+v, u, nil)
 		}
 	}
 }
